@@ -12,7 +12,7 @@ RULE = ("Hypothesis-generated graph cases biased to wide layers of parallelizabl
 ASSUMPTIONS = ["a task process counts as running from its spawn until its exit event in the virtual kernel's log",
                "group/combine steps are instantaneous at their 'Running' print"]
 ESSENTIAL = ["slot_reused_out_of_order", "sequential_ready_while_parallel_inflight", "sync_step_with_parallel_tasks",
-             "more_ready_than_slots", "launch_failure_in_parallel_mode", "jobs_absent", "jobs=1"]
+             "more_ready_than_slots", "launch_failure_in_parallel_mode", "jobs_absent", "jobs=1", "cond_slot_in_conductors_own_environment"]
 TECHNIQUE = "property-based testing (Hypothesis) under a virtual kernel; instantaneous invariants replayed over the spawn/exit log"
 LEVEL_TEXT = ("Randomised search over graphs x parallelizable flags x --jobs x completion orders; every spawn's COND_SLOT and the "
               "running set at each instant are checked against the documented limits. Search, not proof.")
@@ -21,7 +21,13 @@ LEVEL_NOTE = "Trusted: vf/kernel.py spawn/exit log."
 
 def strategy(tier):
     from hypothesis import strategies as st
-    return st.one_of(graph.layered_case(flags=("stop_early",)), _general(tier))
+
+    @st.composite
+    def with_env(draw):
+        case = draw(st.one_of(graph.layered_case(flags=("stop_early",)), _general(tier)))
+        case["outer_slot"] = draw(st.sampled_from([False, False, False, True]))
+        return case
+    return with_env()
 
 
 def _general(tier):
@@ -36,7 +42,9 @@ def examples(tier):
 
 
 def run_case(case):
-    return check(case, graph.run_graph_case(case))
+    # Conductor itself may be running inside a task of an outer `cond run -j N`: its own environment then carries COND_SLOT
+    env = {"COND_SLOT": "7"} if case.get("outer_slot") else {"COND_SLOT": None}
+    return check(case, graph.run_graph_case(case, env=env))
 
 
 def check(case, res):
@@ -46,6 +54,8 @@ def check(case, res):
     if res["status"] in ("deadlock", "livelock"):
         return Outcome([], ["deadlock_ignored_here"], False, obs.brief())
     J = case["jobs"] if case["jobs"] is not None else 1
+    if case.get("outer_slot"):
+        labels.append("cond_slot_in_conductors_own_environment")
     labels.append("jobs_absent" if case["jobs"] is None else "jobs=%d" % J if J == 1 else "jobs>=2")
     running = {}  # pid -> (task, slot, par)
     freed_order = []
